@@ -12,15 +12,15 @@ CLAIMED = {
  "C03": ("model-based stateful PBT: flat sparse byte-array model, whole-memory comparison through host pointers/backing files after every step",
          "histories of every guest-level access form (buffers, slices, objects, streams incl. short/chunked sources and sinks, atomics) over generated layouts (anonymous, file-backed, Xen-UNIX, mock) agree with a flat byte array after every step",
          "flat model indexed 0..2^64; raw observation through host pointers and pread", "4 C03"),
- "C04": ("model-based stateful PBT: Vec<u8> model of one container, raw-pointer comparison after every step",
+ "C04": ("model-based stateful PBT: Vec<u8> model of one container (slice; mapped region addressed as a slice and through the region's own interface; xen build: emulated regions judged through the device file), raw comparison after every step",
          "histories over every accessor kind of one container (slice or mapped region) transfer exactly the named bytes, report the right counts and leave the frame untouched",
          "Vec<u8> model; values encoded with to_ne/le/be_bytes", "4 C04"),
  "C05": ("stateful PBT with a diff-driven oracle: every byte that changed must be dirty in the owning bitmap",
          "for generated levels, page sizes, bitmap flavours, derivation chains and histories with resets, no write leaves a changed byte clean; failing descriptor reads report their whole target",
          "byte diff through raw pointers is independent of what the library claims to have written", "4 C05"),
- "C06": ("exhaustive enumeration of (entry point x length x guest/local alignment) against a trace oracle of the primitive accesses (hook H1); atomic-API enumeration; threaded tearing detector with fixed iteration counts",
-         "for every entry point that funnels into the byte-copy helper and every length 0..=24 and address alignment class, an aligned 1/2/4/8-byte transfer is requested as exactly one access of that width; misaligned atomic accesses are refused at every container alignment; a black-box flip/observe run cross-checks",
-         "hook observes requested accesses; one aligned volatile access <= 8 bytes assumed to be one machine access; tearing detector does not own the schedule (corroborating only)", "4 C06"),
+ "C06": ("exhaustive enumeration of (entry point x length x guest/local alignment) against a trace oracle of the primitive accesses (hook H1); atomic-API enumeration (std build and, over emulated regions of every kind, the xen build); threaded tearing detector and store-buffering litmus test (requested ordering) with fixed iteration counts",
+         "for every entry point that funnels into the byte-copy helper and every length 0..=24 and address alignment class, an aligned 1/2/4/8-byte transfer is requested as exactly one access of that width; misaligned atomic accesses are refused at every container alignment; a black-box flip/observe run cross-checks; SeqCst store-then-load pairs never both miss the other thread's store",
+         "hook observes requested accesses; one aligned volatile access <= 8 bytes assumed to be one machine access; tearing detector and litmus test do not own the schedule (a forbidden outcome is always real, silence is weak evidence); the litmus test can only expose a weakened SeqCst store on x86", "4 C06"),
  "C07": ("extreme-input PBT over every public access/query entry point, in builds with and without overflow checks and in the xen build; panics caught per case, crashes/hangs attributed by worker isolation and watchdog",
          "no generated call with addresses/lengths/counts from the full 64-bit range panics, aborts, overflows in checked builds or hangs",
          "documented program-logic panics excluded by construction (listed in evidence assumptions); hang = no result within the watchdog, reproduced from the recorded tape", "4 C07"),
@@ -33,16 +33,16 @@ CLAIMED = {
  "C10": ("model-based stateful PBT over a growing list of maps; every earlier map re-inspected after every step",
          "construction, insertion and removal fail with the documented error or return a sorted disjoint map equal to the old set +- one region; earlier maps, clones and removed-region handles keep reaching the same tagged memory",
          "sorted-list model; base+size == 2^64 is a don't-care", "4 C10"),
- "C11": ("model-based stateful PBT over several handles (generation model, Weak liveness) + generated multi-threaded reader/updater programs with a schedule-independent oracle",
+ "C11": ("model-based stateful PBT over several handles (generation model, Weak liveness) + generated multi-threaded reader/updater programs with a schedule-independent oracle + exhaustively enumerated update-lock histories (give up, dying updater, second updater on another thread)",
          "sequential histories over up to 4 handles show that a snapshot keeps exactly its generation while replacements (incl. same-layout ones) happen, every handle sees the newest map after replace returns, and old generations die exactly when unreachable; threaded stress never observes a mixture, a step backwards, or a lost update",
          "interleavings inside arc-swap/Mutex are sampled by stress only (no hook into external crates)", "4 C11"),
  "C12": ("stateful PBT against an owner-count model judged by an interposed mmap/munmap log; metamorphic compile-fail program pairs generated from a grammar and compiled against the current crate",
          "for generated create/build/insert/remove/clone/snapshot/replace/drop histories every mapping is unmapped exactly once when its last owner goes (never for raw regions), no leak at the end; every (parent, accessor, escape pattern) program is rejected by the borrow checker while its control twin compiles",
          "interposed C symbols mmap/munmap in the harness binary; client programs limited to the grammar", "4 C12"),
- "C13": ("differential PBT: identical call sequences on the volatile adapter and on its std::io counterpart",
+ "C13": ("differential PBT: identical call sequences on the volatile adapter and on its std::io counterpart (xen build: the volatile buffer inside emulated regions incl. mapped on demand)",
          "for every adapter the crate provides, counts, bytes landed, stream positions/sink contents and error kinds agree with std after every call of a generated sequence; canaries show the buffer bounds are respected",
          "std::io adapters as reference; state after a failed exact call not compared (unspecified by std)", "4 C13"),
- "C14": ("fault-script PBT: generated per-call behaviours of a harness stream, judged by conservation invariants over the stream log and memory",
+ "C14": ("fault-script PBT: generated per-call behaviours of a harness stream, and the crate's own stream objects / real descriptors with early end-of-stream and full sinks (std and xen builds), judged by conservation invariants over the stream log / stream state and memory",
          "under generated scripts of full/short/zero/interrupted/hard-error behaviours, interruptions are retried, errors end and are reported, every delivered byte is stored once in order, exact forms succeed iff the full count moved",
          "harness-implemented stream with position-determined content; kernel EINTR not injected", "4 C14"),
  "C15": ("decision-table PBT over construction requests + exhaustive enumeration of Xen flag words; interposed mmap/munmap log; pread/pwrite coherence",
